@@ -21,7 +21,7 @@ def transform_zoo(tier):
 
         def rec(o):
             if isinstance(o, torch.Tensor):
-                if o.dim() > 0:
+                if o.dim() > 0 and o.numel() > 0:        # placeholders of skipped levels / scales (0-dim or empty) carry no data
                     res.append(o)
             elif isinstance(o, (list, tuple)):
                 for q in o:
